@@ -60,7 +60,7 @@ static void check_generated(const vector<R> &in, int axis, bool neighbourLists) 
     Variables vs; for (int i = 0; i < n; i++) vs.push_back(new Variable(i, 0, 1));
     Constraints cs; string desc = rstr(in, 0, false, 0) + (axis == 0 ? mcx::fmt(" generateXConstraints(neighbourLists=%d)", neighbourLists) : " generateYConstraints");
     try { if (axis == 0) generateXConstraints(rs, vs, cs, neighbourLists); else generateYConstraints(rs, vs, cs); }
-    catch (CriticalFailure &f) { ctx.count("generator_assert"); for (auto v : vs) delete v; for (auto r : rs) delete r; return; }
+    catch (CriticalFailure &f) { ctx.library_abort(f.what(), desc); for (auto v : vs) delete v; for (auto r : rs) delete r; return; }
     ctx.count("transitions");
     const double NEG = -1e300; vector<vector<double>> L(n, vector<double>(n, NEG));
     for (auto c : cs) { int a = c->left->id, b = c->right->id; L[a][b] = max(L[a][b], c->gap); if (c->gap < 0) ctx.violation("negative_gap", {}, desc); }
@@ -102,7 +102,7 @@ static void run(int n, int G) {
                 vector<double> w0, h0, cx0, cy0; double avg = 0;
                 for (auto r : rs) { w0.push_back(r->width()); h0.push_back(r->height()); cx0.push_back(r->getCentreX()); cy0.push_back(r->getCentreY()); avg += (r->width() + r->height()) / 2; } avg /= n;
                 string desc = rstr(in, fm, third, border); bool threw = false; string what;
-                try { removeoverlaps(rs, fixed, third); } catch (CriticalFailure &f) { threw = true; what = f.what(); } catch (...) { threw = true; what = "exception"; }
+                try { removeoverlaps(rs, fixed, third); } catch (CriticalFailure &f) { threw = true; what = f.what(); ctx.library_abort(f.what(), desc); } catch (...) { threw = true; what = "exception"; }
                 if (threw) ctx.count("threw");
                 if (Rectangle::xBorder != border || Rectangle::yBorder != border) ctx.violation("border_not_restored", {threw ? "after_throw" : "normal_return"}, desc, mcx::fmt("xBorder=%g yBorder=%g %s", Rectangle::xBorder, Rectangle::yBorder, what.substr(0, 120).c_str()));
                 Rectangle::setXBorder(border); Rectangle::setYBorder(border);
